@@ -19,9 +19,31 @@ def seeded():
         m = json.load(open(d)); cr = m["check_result"]
         rows.append("| %s | %s | %s |" % (os.path.basename(os.path.dirname(d)), "yes" if cr["caught"] else "NO", esc(cr["route"])[:400]))
     return "\n".join(rows)
+def status():
+    import importlib, sys
+    sys.path.insert(0, os.path.join(V, "tools")); sys.path.insert(0, os.path.join(V, "tools", "props"))
+    man = json.load(open(os.path.join(V, "MANIFEST.json")))
+    kf = json.load(open(os.path.join(V, "known_findings.json")))["findings"]
+    rows = ["| property | level claimed | theorems audited | quick-tier cases (last committed evidence) | fixes / open findings | seeded caught |", "|---|---|---|---|---|---|"]
+    for c in man["checks"]:
+        pid = c["property_id"]
+        try:
+            mod = importlib.import_module("props." + pid.lower()); nth = len(mod.THEOREMS)
+        except Exception:
+            nth = "?"
+        try:
+            ev = json.load(open(os.path.join(V, "evidence", pid + ".json")))["coverage"]; evs = "%s (%s distinct non-trivial)" % (ev.get("evaluations"), ev.get("distinct_nontrivial"))
+        except Exception:
+            evs = "-"
+        nfix = sum(1 for f in kf if f["property"] == pid and f.get("status") == "fixed")
+        nopen = sum(1 for f in kf if f["property"] == pid and f.get("status") != "fixed")
+        sd = [json.load(open(d))["check_result"]["caught"] for d in glob.glob(os.path.join(V, "seeded", pid + "-*", "meta.json"))]
+        rows.append("| %s | %s | %s | %s | %d / %d | %d of %d |" % (pid, (c["level_claimed"]["category"] + (" (partial)" if "PARTIAL" in json.dumps(c["level_claimed"]) + c.get("level_note","") else "")) if isinstance(c["level_claimed"], dict) else c["level_claimed"], nth, evs, nfix, nopen, sum(sd), len(sd)))
+    na = man.get("not_applicable", [])
+    return "\n".join(rows) + "\n\nNot claimed: " + (", ".join("%s (%s)" % (n.get("property_id"), n.get("reason", "")[:160]) for n in na) if na else "none")
 def main():
     p = os.path.join(V, "DESIGN.md"); s = open(p).read()
-    for name, fn in (("findings", findings), ("seeded", seeded)):
+    for name, fn in (("findings", findings), ("seeded", seeded), ("status", status)):
         a, b = "<!-- GEN:%s -->" % name, "<!-- /GEN:%s -->" % name
         if a in s:
             i = s.index(a) + len(a); j = s.index(b)
